@@ -335,6 +335,7 @@ func runC16(c *explore.Ctx) {
 		mergeSweep(c, 2, 6, 2, cfgs, check)
 	}
 	extremeMergesOpt(c, check, true) // sums of huge frequencies
+	zooEach(c, true, func(idx int64, z *zooSeg) { checkStats(c, "ZOO", idx, "zoo", z.seg, z.want, "ZOO "+z.name) })
 	// CollectionStats.Merge adds component-wise
 	if c.Shard == 0 || c.Replay {
 		statsMergeCheck(c)
